@@ -129,7 +129,8 @@ MaxWidth(t) ==
              sub == IF t.k \in MapKinds \cup ViewKinds
                     THEN {MaxWidth(t.ch[i][1]) : i \in 1..n} \cup {MaxWidth(t.ch[i][2]) : i \in 1..n}
                     ELSE {MaxWidth(t.ch[i]) : i \in 1..n}
-             m == IF sub = {} THEN 0 ELSE CHOOSE x \in sub : \A y \in sub : x >= y
+             sub2 == IF t.k = "itemsview" /\ n > 0 THEN sub \cup {2} ELSE sub       \* items are [key, value] pairs
+             m == IF sub2 = {} THEN 0 ELSE CHOOSE x \in sub2 : \A y \in sub2 : x >= y
          IN IF n > m THEN n ELSE m
 TooLarge(t, N) == N >= 0 /\ MaxWidth(t) > N
 =============================================================================
